@@ -39,6 +39,15 @@ def run_property(pid, args):
                 knowns.append(f)
             else:
                 violations.append(f)
+    selfcheck = None
+    if args.tier == 'thorough' and not args.no_selfcheck:
+        # liveness of this property's rules: recorded breaking changes applied to scratch copies must still be reported
+        from . import selfcheck as _sc
+        base_keys = {f.key for f in violations}
+        for r in rules:
+            if r.instances < r.floor:
+                base_keys.add('%s:<floor>' % r.id)
+        selfcheck = _sc.run(pid, mod, ctx.repo, base_keys)
     wall = time.time() - t0
     evdir = os.path.join(VERIF, 'evidence')
     os.makedirs(os.path.join(evdir, 'replay'), exist_ok=True)
@@ -63,7 +72,11 @@ def run_property(pid, args):
                     continue
                 if k >= len(violations):
                     os.unlink(os.path.join(evdir, 'replay', fn))
-        write_evidence(pid, mod, ctx, rules, violations, knowns, exempted, wall, evdir)
+        write_evidence(pid, mod, ctx, rules, violations, knowns, exempted, wall, evdir, selfcheck)
+    if selfcheck is not None:
+        out.append('SELFCHECK property=%s recorded breaking changes: %d applied, %d reported, %d stale on this tree%s' % (
+            pid, selfcheck['mutants'] - selfcheck['stale'], selfcheck['killed'], selfcheck['stale'],
+            (', NOT reported: ' + '; '.join(selfcheck['survived'])) if selfcheck['survived'] else ''))
     if not args.quiet:
         for r in rules:
             print('  rule %-10s instances=%-5d floor=%-5d nontrivial=%-5d violations=%d  %s' % (
@@ -78,7 +91,7 @@ def run_property(pid, args):
     return 1 if violations else 0
 
 
-def write_evidence(pid, mod, ctx, rules, violations, knowns, exempted, wall, evdir):
+def write_evidence(pid, mod, ctx, rules, violations, knowns, exempted, wall, evdir, selfcheck=None):
     samples = []
     for r in rules:
         for s in r.samples[:3]:
@@ -106,6 +119,11 @@ def write_evidence(pid, mod, ctx, rules, violations, knowns, exempted, wall, evd
         'files_consulted': sorted(ctx.consulted),
         'exhaustive': True,
     }
+    if selfcheck is not None:
+        cov['selfcheck'] = selfcheck
+        cov['explanation'] += (' THOROUGH TIER additionally applied %d recorded breaking changes of this property (mutation corpus + independently seeded '
+                               'defects) to scratch copies of the analysed sources and re-ran the rules: %d reported, %d stale on this tree, %d not reported.' % (
+                                   selfcheck['mutants'], selfcheck['killed'], selfcheck['stale'], len(selfcheck['survived'])))
     ev = {
         'property_id': pid, 'tier': ctx.tier, 'seed': ctx.seed, 'level': 'other',
         'coverage': cov,
@@ -129,6 +147,7 @@ def main(argv=None):
     ap.add_argument('--no-evidence', action='store_true')
     ap.add_argument('--scratch')
     ap.add_argument('--quiet', action='store_true')
+    ap.add_argument('--no-selfcheck', action='store_true', help='thorough tier without the mutation liveness pass')
     args = ap.parse_args(argv)
     if args.replay:
         d = json.load(open(args.replay))
